@@ -216,6 +216,9 @@ def _maxabs(A):
 
 def _compare_all(ref, var, tag, skip=()):
     require(set(ref) == set(var), tag + "-keys", lambda: f"matrix keys differ: {sorted(ref)} vs {sorted(var)}")
+    # rounding floor: entries that are numerically zero relative to the whole discretization (e.g. the 1e-17
+    # vector-source entries of a grid rotated about z) carry no information
+    floor = 1e-12 * max([_maxabs(M) for M in ref.values()] + [0.0])
     for name in sorted(ref):
         if name in skip:
             continue
@@ -224,7 +227,8 @@ def _compare_all(ref, var, tag, skip=()):
         require(np.all(np.isfinite(B.data)), tag + "-finite", f"{name}: non-finite entries")
         e = _maxabs((A - B).tocsr())
         s = max(_maxabs(A), _maxabs(B))
-        require(e <= RTOL * s, tag, lambda: f"{name}: max abs difference {e:.3e} > {RTOL:g} * {s:.3e}")
+        require(e <= RTOL * s + floor, tag,
+                lambda: f"{name}: max abs difference {e:.3e} > {RTOL:g} * {s:.3e} + {floor:.1e}")
 
 
 def _rows(idx, nd):
@@ -339,7 +343,7 @@ def check(spec):
             if target_cells.size:
                 e = _maxabs((A[target_cells] - B[target_cells]).tocsr())
                 s = max(_maxabs(A), _maxabs(B))
-                require(e <= RTOL * s, "update-cell-rows",
+                require(e <= RTOL * s + 1e-12 * max(_maxabs(M) for M in ref.values()), "update-cell-rows",
                         lambda: f"{name}: rows of targeted cells differ by {e:.3e} > {RTOL:g} * {s:.3e}")
         return {"labels": labels, "nontrivial": nontrivial}
 
@@ -359,6 +363,7 @@ def check(spec):
     crow_target[target_cells] = True
     crow_active = np.zeros(g.num_cells, dtype=bool)
     crow_active[ac] = True
+    floor = 1e-12 * max([_maxabs(M) for M in ref.values()] + [0.0])  # rounding floor, see _compare_all
     for name in sorted(ref):
         if name in skip:
             continue
@@ -372,7 +377,7 @@ def check(spec):
         if on.size != A.shape[0]:
             raise HarnessError(f"row mask of size {on.size} for matrix {name} with {A.shape[0]} rows")
         e = _maxabs((A[on] - B[on]).tocsr())
-        require(e <= RTOL * s, "partial-rows", lambda: f"{name}: targeted rows differ by {e:.3e} > {RTOL:g} * {s:.3e}")
+        require(e <= RTOL * s + floor, "partial-rows", lambda: f"{name}: targeted rows differ by {e:.3e} > {RTOL:g} * {s:.3e}")
         z = _maxabs(B[off].tocsr())
-        require(z <= RTOL * s, "partial-zero", lambda: f"{name}: rows outside the active set have entries up to {z:.3e}")
+        require(z <= RTOL * s + floor, "partial-zero", lambda: f"{name}: rows outside the active set have entries up to {z:.3e}")
     return {"labels": labels, "nontrivial": nontrivial}
